@@ -78,7 +78,7 @@ _RES_RX = re.compile(r'Checking harness ([\w:]+)\.\.\.')
 
 
 def run_kani(file_names, only=None, tag='k', timeout_harness=int(__import__('os').environ.get('KT','300')), jobs=16, extra_args=(), keep=False,
-             overall_timeout=3000):
+             overall_timeout=7200):
     """Run the harnesses of the given harness files.  Returns (results: {harness: {...}}, meta)."""
     files = [parse_harness_file(os.path.join(HARNESS_DIR, n)) for n in file_names]
     all_h = [h for f in files for h in f['harnesses']]
